@@ -48,6 +48,9 @@ def models(tier):
             if plan == "inprogress":
                 alpha += [("resolve", 0, True), ("resolve", 0, False)]
             out.append(monitors.ScenarioModel(f"outbound-{plan}-peer{peer_i}", ob, alpha, MONS, max_socks=1, start_plan=[plan]))
+    # a second deterministic scheduling policy (the I/O thread runs only when nothing else can)
+    if True:
+        out = monitors.with_io_last(out)
     return out
 
 
